@@ -205,9 +205,12 @@ func (s *Service) prune(ctx context.Context) {
 				failedSet[eh.Height()] = struct{}{}
 				failed++
 			} else {
-				lastPrunedHeader = eh
 				successful++
 			}
+			// the cursor moves past headers that failed as well: they are recorded in the checkpoint
+			// and retried by the following cycles, whereas re-fetching from the last success would
+			// fetch and fail the same batch for ever once a whole batch fails
+			lastPrunedHeader = eh
 		}
 
 		err = s.updateCheckpoint(s.ctx, lastPrunedHeader.Height(), failedSet)
